@@ -50,6 +50,7 @@ class Check:
         self.analysed = {}
         self.explanation = ""
         self.trusted = []
+        self.extra = {}
         self._index = {}
         self.expect = json.load(open(EXPECT)).get(pid, {}) if os.path.exists(EXPECT) else {}
 
@@ -157,6 +158,7 @@ class Check:
                 "notes": self.notes,
                 "trusted_base": self.trusted,
                 "exhaustive": False,
+                **self.extra,
             },
             "assumptions": self.assumptions,
             "wall_s": round(wall, 3),
@@ -219,6 +221,62 @@ class Check:
                  "detail": o["detail"][:400]} for o in picked]
 
 
+def run_mutants(pid):
+    """thorough tier: every stored mutant of this property is applied to a scratch copy of the CURRENT tree and the
+    quick check must report a violation of the expected rule.  Nothing is executed from the mutated tree."""
+    import concurrent.futures
+    import glob
+    import shutil
+    import subprocess
+    import tempfile
+    from .pipeline import REPO
+    mdir = os.path.join(VERIF, "mutants", pid)
+    patches = sorted(glob.glob(os.path.join(mdir, "*.patch")))
+    results = []
+    if not patches:
+        return results
+    base = tempfile.mkdtemp(prefix="tfhe-sv-", dir=os.environ.get("TMPDIR", "/var/tmp"))
+
+    def one(pf):
+        name = os.path.basename(pf)[:-6]
+        expect, what = None, ""
+        for line in open(pf):
+            if line.startswith("# expect:"):
+                expect = line.split(":", 1)[1].strip()
+            elif line.startswith("# what:"):
+                what = line.split(":", 1)[1].strip()
+        d = os.path.join(base, name)
+        os.makedirs(os.path.join(d, "repo"))
+        shutil.copytree(os.path.join(REPO, "src"), os.path.join(d, "repo", "src"),
+                        ignore=shutil.ignore_patterns("googletest"))
+        rd = os.path.join(REPO, "README.md")
+        if os.path.exists(rd):
+            shutil.copy(rd, os.path.join(d, "repo"))
+        body = "".join(l for l in open(pf) if not l.startswith("# "))
+        ap = subprocess.run(["patch", "-p1", "-s", "--no-backup-if-mismatch"], input=body, text=True, cwd=os.path.join(d, "repo"),
+                            stdout=subprocess.PIPE, stderr=subprocess.STDOUT)
+        if ap.returncode != 0:
+            shutil.rmtree(d, ignore_errors=True)
+            return {"mutant": name, "what": what, "expect": expect, "status": "does-not-apply"}
+        env = dict(os.environ, VERIF_REPO=os.path.join(d, "repo"), VERIF_EVIDENCE_DIR=os.path.join(d, "ev"),
+                   VERIF_WORK=os.path.join(d, "work"), VERIF_TIER="quick")
+        r = subprocess.run([sys.executable, os.path.join(VERIF, "bin", "check"), pid], env=env, stdout=subprocess.PIPE,
+                           stderr=subprocess.STDOUT, text=True)
+        hits = re.findall(r"^  refuted: (\S+) (.*)$", r.stdout, flags=re.M)
+        rules = sorted({h[0] for h in hits})
+        detected = r.returncode == 1 and (expect in rules if expect else bool(rules))
+        shutil.rmtree(d, ignore_errors=True)
+        return {"mutant": name, "what": what, "expect": expect, "status": "detected" if detected else "MISSED",
+                "exit": r.returncode, "rules_fired": rules, "first_report": (hits[0][1][:200] if hits else r.stdout[-200:])}
+
+    try:
+        with concurrent.futures.ThreadPoolExecutor(max_workers=6) as ex:
+            results = list(ex.map(one, patches))
+    finally:
+        shutil.rmtree(base, ignore_errors=True)
+    return results
+
+
 def run_check(pid, rule_fn, argv):
     tier = "thorough" if ("--thorough" in argv or os.environ.get("VERIF_TIER") == "thorough") else "quick"
     try:
@@ -228,7 +286,23 @@ def run_check(pid, rule_fn, argv):
     chk = Check(pid, tier, seed)
     try:
         rule_fn(chk)
+        missed = []
+        if tier == "thorough":
+            res = run_mutants(pid)
+            chk.extra["self_validation"] = {
+                "rule": "each stored mutant (mutants/%s/*.patch: a change that compiles and passes the test suite but breaks the "
+                        "property) is applied to a scratch copy of the current tree; the quick check must exit 1 naming the expected rule" % pid,
+                "mutants": res,
+                "detected": sum(1 for r in res if r["status"] == "detected"),
+                "applicable": sum(1 for r in res if r["status"] != "does-not-apply"),
+            }
+            missed = [r for r in res if r["status"] == "MISSED"]
+            for r in res:
+                print("  self-validation: %-22s %-14s expect %s fired %s" % (r["mutant"], r["status"], r["expect"], r.get("rules_fired")))
         rc = chk.finish()
+        if missed and rc == 0:
+            print("ANALYSIS-BROKEN property=%s: checker regression, stored mutant(s) not detected: %s" % (pid, [r["mutant"] for r in missed]))
+            rc = 2
     except BrokenPipeError:
         rc = 2
     except AnalysisBroken as e:
